@@ -312,4 +312,19 @@ def install (high : Int) (sub : Bytes) : Table :=
   if high > 0xFFFF then [(⟨0, 4, 0⟩, sub), (⟨3, 10, 0⟩, sub)]
   else [(⟨0, 3, 0⟩, sub), (⟨3, 1, 0⟩, sub)]
 
+/-! ## specification of `CodeRange` and of `InstallCMap`'s choice of keys -/
+
+/-- "CodeRange returns the smallest and largest code point in the subtable" (subtable.go): over the
+code points (as runes) the subtable has entries for; (0, 0) for an empty subtable.  Written with
+`min`/`max` over the list, independent of any iteration order. -/
+def specCodeRange : List Int → Int × Int
+  | [] => (0, 0)
+  | k :: rest => (rest.foldl min k, rest.foldl max k)
+
+/-- The keys a Unicode subtable must be filed under: a repertoire that reaches beyond the BMP needs
+the full-Unicode encodings (platform 0 encoding 4, platform 3 encoding 10), a BMP-only repertoire the
+BMP encodings (0,3) and (3,1). -/
+def specInstallKeys (codes : List Int) : List Key :=
+  if (specCodeRange codes).2 > 0xFFFF then [⟨0, 4, 0⟩, ⟨3, 10, 0⟩] else [⟨0, 3, 0⟩, ⟨3, 1, 0⟩]
+
 end SfntV.CmapTable
